@@ -171,6 +171,12 @@ func checkOwnership(text []byte) (bad, exp, got string) {
 	dst := make([]byte, 0, 8)
 	sb, _, err4 := rjson.ReadStringBytes(w, dst)
 	sbCopy := append([]byte(nil), sb...)
+	// the handler idiom with a reused key scratch: x, _, err = UnescapeStringContent(name, x[:0])
+	var keyScratch []byte
+	rjson.HandleObjectValues(w, rjson.ObjectValueHandlerFunc(func(k, d []byte) (int, error) {
+		keyScratch, _, _ = rjson.UnescapeStringContent(k, keyScratch[:0])
+		return 0, nil
+	}), nil)
 	if !bytes.Equal(w, orig) {
 		return "input-modified", fmt.Sprintf("%q", orig), fmt.Sprintf("%q", w)
 	}
